@@ -1,16 +1,23 @@
 #!/venv/bin/python
-"""Apply a textual mutant (or a patch file) to /repo, run checks, and always revert.
+"""Run checks against a changed copy of maki-nage/rxsci without touching /repo.
 
-usage: mutate.py --file rxsci/data/split.py --old '...' --new '...' [--count N] --checks C06 C02 [--tier quick] [--suite]
-       mutate.py --patch /verif/seeded/x/patch.diff --checks C06
+A scratch git worktree of /repo HEAD is created under /tmp, the change (a textual replacement or a
+patch file) is applied there, the checks import rxsci from it (RXSCI_REPO) and write their evidence
+and replay files to a scratch directory; everything is removed afterwards.
+
+usage: mutate.py --file rxsci/data/split.py --old '...' --new '...' --checks C06 C02 [--tier quick] [--suite]
+       mutate.py --patch /verif/seeded/x/patch.diff --checks all [--suite] [--demo /verif/seeded/x/demo.py]
 """
 import argparse
 import os
+import shutil
 import subprocess
 import sys
+import tempfile
 import time
 
 REPO = '/repo'
+ALL = ['C%02d' % i for i in range(1, 21)]
 
 
 def sh(cmd, **kw):
@@ -24,44 +31,60 @@ def main():
     ap.add_argument('--new')
     ap.add_argument('--count', type=int, default=1)
     ap.add_argument('--patch')
+    ap.add_argument('--reverse', action='store_true', help='apply the patch reversed (re-introduce a fixed defect)')
     ap.add_argument('--checks', nargs='*', default=[])
     ap.add_argument('--tier', default='quick')
     ap.add_argument('--suite', action='store_true')
+    ap.add_argument('--demo', help='python file run with PYTHONPATH=<worktree>; exit code reported')
+    ap.add_argument('--keep-going', action='store_true')
     a = ap.parse_args()
-    if sh('git -C %s status --porcelain' % REPO).stdout.strip():
-        print('refusing: /repo not clean')
+    checks = ALL if a.checks == ['all'] else a.checks
+    wt = tempfile.mkdtemp(prefix='rxsci-mut-')
+    scratch = tempfile.mkdtemp(prefix='rxsci-mut-out-')
+    os.rmdir(wt)
+    r = sh('git -C %s worktree add --detach %s HEAD' % (REPO, wt))
+    if r.returncode:
+        print('cannot create worktree:', r.stderr)
         return 3
     try:
         if a.patch:
-            r = sh('git -C %s apply %s' % (REPO, a.patch))
+            r = sh('git -C %s apply %s %s' % (wt, '-R' if a.reverse else '', os.path.abspath(a.patch)))
             if r.returncode:
-                print('patch does not apply:', r.stderr)
+                print('patch does not apply:', r.stderr.strip())
                 return 3
         else:
-            p = os.path.join(REPO, a.file)
+            p = os.path.join(wt, a.file)
             s = open(p).read()
             if s.count(a.old) < 1:
                 print('old text not found')
                 return 3
-            s = s.replace(a.old, a.new, a.count)
-            open(p, 'w').write(s)
+            open(p, 'w').write(s.replace(a.old, a.new, a.count))
+        env = dict(os.environ, RXSCI_REPO=wt, MC_EVIDENCE_DIR=os.path.join(scratch, 'evidence'),
+                   MC_REPLAY_DIR=os.path.join(scratch, 'replays'), PYTHONHASHSEED='0')
         if a.suite:
-            r = sh('cd /repo && /venv/bin/python -m pytest -q -p no:cacheprovider --timeout=900 2>&1 | tail -1')
+            r = sh('cd %s && PYTHONPATH=%s /venv/bin/python -m pytest -q -p no:cacheprovider --timeout=900 2>&1 | tail -1' % (wt, wt))
             print('suite:', r.stdout.strip())
-        results = {}
-        for c in a.checks:
+        if a.demo:
+            r = sh('cd %s && PYTHONPATH=%s /venv/bin/python %s' % (wt, wt, os.path.abspath(a.demo)))
+            print('demo exit=%d %s' % (r.returncode, (r.stdout + r.stderr).strip().splitlines()[-1:] ))
+        caught = []
+        for c in checks:
             t0 = time.time()
-            r = sh('cd /verif && PYTHONHASHSEED=0 /venv/bin/python -m mc %s --tier %s' % (c, a.tier))
+            r = sh('cd /verif && /venv/bin/python -m mc %s --tier %s' % (c, a.tier), env=env)
             lines = [l for l in r.stdout.splitlines() if l.startswith(('VIOLATION', 'KNOWN', 'HARNESS', 'VACUITY'))]
-            results[c] = r.returncode
-            print('%s exit=%d %.0fs %s' % (c, r.returncode, time.time() - t0, ' | '.join(l[:150] for l in lines[:4])))
+            if r.returncode == 1:
+                caught.append(c)
+            if r.returncode != 0 or len(checks) <= 4:
+                print('%s exit=%d %.0fs %s' % (c, r.returncode, time.time() - t0, ' | '.join(l[:170].replace(scratch, '') for l in lines[:3])))
             if r.returncode not in (0, 1):
                 print(r.stdout[-1500:], r.stderr[-1500:])
+        print('CAUGHT-BY: %s' % (' '.join(caught) or 'none'))
         return 0
     finally:
-        sh('git -C %s checkout -- .' % REPO)
-        sh('git -C %s clean -fdq -e rxsci.egg-info' % REPO)
-        # evidence files were rewritten by runs on a mutated tree: caller re-runs on the clean tree when needed
+        sh('git -C %s worktree remove --force %s' % (REPO, wt))
+        shutil.rmtree(wt, ignore_errors=True)
+        shutil.rmtree(scratch, ignore_errors=True)
+        sh('git -C %s worktree prune' % REPO)
 
 
 if __name__ == '__main__':
